@@ -1,3 +1,8 @@
 import BVM.Model.Bits
+import BVM.Model.FT
+import BVM.Model.Ops
+import BVM.Model.Ser
+import BVM.Model.Cfg
+import BVM.Model.Rt
 import BVM.Proofs.Bits
 import BVM.Props.C08
